@@ -5,7 +5,9 @@
 //!     `<out>/lockprograms.txt` (lock ids relative to the fixture, see `<out>/lockroles.txt`). Oracle C12: no
 //!     `SelfDeadlock`, no `TryFail`, no `ParentElementLocked` in single-threaded use.
 //!  2. pairs (and, in the thorough tier, triples) of operations under the deterministic scheduler (shim mode 2):
-//!     all interleavings with a bounded number of preemptions plus random ones. Oracle C15: no deadlock. Oracle C16:
+//!     all interleavings with a bounded number of preemptions plus random ones. The quick tier takes every
+//!     writer x writer pair and a seeded sample of the pairs with a reader over the operations of `MAIN`, plus the
+//!     fixed `targeted_pairs` of the operations of `EXTRA` (`rmcdata_ref`, `get_or_create_named`). Oracle C15: no deadlock. Oracle C16:
 //!     results and final dump equal those of a serial order of the operations that did not return
 //!     `ParentElementLocked`; structural and index invariants hold at the end.
 //!  3. real threads (shim mode 0): every deadlocking pair is retried with two real threads in a child process
@@ -66,6 +68,10 @@ mod imp {
         Sort,
         SetRef2Text,
         SetFilename,
+        // writers that are paired in a targeted way only (see `EXTRA`); declared after the other writers so that the
+        // signatures of the pairs among the operations above stay what they are
+        RmCdataRef,
+        GetOrCreateNamed,
         // readers
         SerializeA,
         SerializeB,
@@ -87,11 +93,40 @@ mod imp {
         CreateNamed, RemoveSub, SetItemName, MoveHere, SetCdata, SetRefTarget, SetComment, SetAttribute, CreateFile, RemoveFile,
         LoadBuffer, LoadBuffer2, Sort, SetRef2Text, SetFilename, SerializeA, SerializeB, Path, DfsCount, CheckRefs, GetByPath, GetRefsTo, IdentCount,
     ];
-    const ALL: [Op; 26] = [
+    /// further writers: in the quick tier they are only paired with the operations that take the same locks (`targeted_pairs`),
+    /// so that the seeded sample over `MAIN` is the same as without them; the thorough tier pairs them with everything
+    const EXTRA: [Op; 2] = [RmCdataRef, GetOrCreateNamed];
+    /// `MAIN` followed by `EXTRA`: the operations that can be part of a pair; pair index = index(a) * len + index(b) (argument of `concchild`)
+    const PAIRED: [Op; 25] = [
         CreateNamed, RemoveSub, SetItemName, MoveHere, SetCdata, SetRefTarget, SetComment, SetAttribute, CreateFile, RemoveFile,
-        LoadBuffer, LoadBuffer2, Sort, SetRef2Text, SetFilename, SerializeA, SerializeB, Path, DfsCount, CheckRefs, GetByPath, GetRefsTo, IdentCount, LoadEmpty1,
-        LoadEmpty2, MoveToAncestor,
+        LoadBuffer, LoadBuffer2, Sort, SetRef2Text, SetFilename, SerializeA, SerializeB, Path, DfsCount, CheckRefs, GetByPath, GetRefsTo, IdentCount,
+        RmCdataRef, GetOrCreateNamed,
     ];
+    const ALL: [Op; 28] = [
+        CreateNamed, RemoveSub, SetItemName, MoveHere, SetCdata, SetRefTarget, SetComment, SetAttribute, CreateFile, RemoveFile,
+        LoadBuffer, LoadBuffer2, Sort, SetRef2Text, SetFilename, RmCdataRef, GetOrCreateNamed, SerializeA, SerializeB, Path, DfsCount, CheckRefs, GetByPath,
+        GetRefsTo, IdentCount, LoadEmpty1, LoadEmpty2, MoveToAncestor,
+    ];
+
+    /// The pairs with the operations of `EXTRA` that every run explores (both tiers):
+    ///  * `rmcdata_ref` with `check_references` in both orders (model read lock held while the referring elements are read-locked),
+    ///    with the other operations that hold the model lock or work on the same reference / its target (the ones
+    ///    `set_reference_target` is paired with), and with itself;
+    ///  * `get_or_create_named` with itself (both threads ask the same parent for the same not yet existing element) and with
+    ///    `create_named_sub_element` / `remove_sub_element` on the same parent, in both orders.
+    fn targeted_pairs() -> Vec<[Op; 2]> {
+        let mut v = vec![[RmCdataRef, CheckRefs], [CheckRefs, RmCdataRef]];
+        for o in [GetRefsTo, GetByPath, IdentCount, RemoveSub, SetItemName, MoveHere, SetRefTarget, SetRef2Text, CreateNamed, CreateFile, RemoveFile, LoadBuffer, Sort] {
+            v.push(if o.is_writer() { [o, RmCdataRef] } else { [RmCdataRef, o] });
+        }
+        v.push([RmCdataRef, RmCdataRef]);
+        v.push([GetOrCreateNamed, GetOrCreateNamed]);
+        for o in [CreateNamed, RemoveSub] {
+            v.push([GetOrCreateNamed, o]);
+            v.push([o, GetOrCreateNamed]);
+        }
+        v
+    }
 
     impl Op {
         fn name(self) -> &'static str {
@@ -111,6 +146,8 @@ mod imp {
                 Sort => "sort",
                 SetRef2Text => "set_character_data_ref2",
                 SetFilename => "set_filename",
+                RmCdataRef => "rmcdata_ref",
+                GetOrCreateNamed => "get_or_create_named",
                 SerializeA => "serialize_a",
                 SerializeB => "serialize_b",
                 Path => "path",
@@ -142,6 +179,8 @@ mod imp {
                 Sort => "model.sort()",
                 SetRef2Text => "ref2 (second FIBEX-ELEMENT-REF of /pkg1/sys, -> /pkg2/ecu2) .set_character_data(\"/pkg1/ecu\")",
                 SetFilename => "a.arxml .set_filename(\"z.arxml\")",
+                RmCdataRef => "ref2 (second FIBEX-ELEMENT-REF of /pkg1/sys, -> /pkg2/ecu2, listed in the reverse reference map) .remove_character_data()",
+                GetOrCreateNamed => "/pkg2/ELEMENTS .get_or_create_named_sub_element(EcuInstance, \"gocecu\") (does not exist yet)",
                 SerializeA => "a.arxml .serialize()",
                 SerializeB => "b.arxml .serialize()",
                 Path => "/pkg2/ecu2 .path()",
@@ -156,10 +195,10 @@ mod imp {
             }
         }
         fn is_writer(self) -> bool {
-            (self as usize) < 15 || matches!(self, LoadEmpty1 | LoadEmpty2 | MoveToAncestor)
+            (self as usize) < 17 || matches!(self, LoadEmpty1 | LoadEmpty2 | MoveToAncestor)
         }
-        fn main_index(self) -> usize {
-            MAIN.iter().position(|o| *o == self).unwrap_or(usize::MAX)
+        fn pair_index(self) -> usize {
+            PAIRED.iter().position(|o| *o == self).unwrap_or(usize::MAX)
         }
     }
 
@@ -389,6 +428,14 @@ mod imp {
                 SetFilename => {
                     let f = self.fa.clone();
                     Box::new(move || Ret::Unit(f.set_filename("z.arxml")))
+                }
+                RmCdataRef => {
+                    let e = self.ref2.clone();
+                    Box::new(move || Ret::Unit(e.remove_character_data()))
+                }
+                GetOrCreateNamed => {
+                    let e = self.el2.clone();
+                    Box::new(move || Ret::Elem(e.get_or_create_named_sub_element(ElementName::EcuInstance, "gocecu")))
                 }
                 SerializeA => {
                     let f = self.fa.clone();
@@ -840,8 +887,8 @@ mod imp {
 
     /// all oracles on one scheduled run
     fn check_run(cx: &mut Ctx, ops: &[Op], run: &Run) {
-        let pair_index = if ops.len() == 2 && ops.iter().all(|o| o.main_index() != usize::MAX) {
-            Some(ops[0].main_index() * MAIN.len() + ops[1].main_index())
+        let pair_index = if ops.len() == 2 && ops.iter().all(|o| o.pair_index() != usize::MAX) {
+            Some(ops[0].pair_index() * PAIRED.len() + ops[1].pair_index())
         } else {
             None
         };
@@ -1190,8 +1237,8 @@ mod imp {
     /// exit code 0: no hang; 3: a round did not finish within 2 s (the process exits with the threads still blocked)
     pub fn child() {
         let idx: usize = std::env::args().nth(2).and_then(|a| a.parse().ok()).unwrap_or(0);
-        let a = MAIN[(idx / MAIN.len()) % MAIN.len()];
-        let b = MAIN[idx % MAIN.len()];
+        let a = PAIRED[(idx / PAIRED.len()) % PAIRED.len()];
+        let b = PAIRED[idx % PAIRED.len()];
         std::panic::set_hook(Box::new(|_| {}));
         vl::verif_lock_mode(0);
         let start = Instant::now();
@@ -1281,6 +1328,8 @@ mod imp {
         let prev = std::panic::take_hook();
         std::panic::set_hook(Box::new(|_| {}));
         let mut rng = Rng::new(seed);
+        // a second stream derived from the seed, for the pairs with the operations of EXTRA
+        let mut rng_extra = Rng(Rng::new(seed).next() ^ 0x6578_7472_615f_6f70);
         let mut cx = Ctx { out: out.to_string(), k: Sink::new(out), findings: vec![], nfail: 0, serial: HashMap::new(), runs: 0, cycles: BTreeMap::new() };
         vl::verif_lock_mode(0);
 
@@ -1323,26 +1372,44 @@ mod imp {
         }
         // the known lost-update case: two loads into an empty model
         pairs.push([LoadEmpty1, LoadEmpty2]);
+        // the operations of EXTRA: always the targeted pairs; thorough: also every other pair with them. They are explored after
+        // everything else, with random choices and a time allowance of their own: neither the schedules drawn for the pairs
+        // above nor their share of the time depend on them, and a slow machine cannot leave them without schedules
+        let targeted = targeted_pairs();
+        cx.k.stats.insert("pairs_targeted".into(), targeted.len() as u64);
+        let mut extra_pairs: Vec<[Op; 2]> = targeted.clone();
+        if thorough {
+            for a in PAIRED {
+                for b in PAIRED {
+                    if (EXTRA.contains(&a) || EXTRA.contains(&b)) && !targeted.contains(&[a, b]) {
+                        extra_pairs.push([a, b]);
+                    }
+                }
+            }
+        }
         // the number of schedules per combination is fixed; the time limit is only a safety net on a slow machine
         let budget = if thorough {
             Budget { bound: 3, cap: 400, nrandom: 50, time: Duration::from_secs(5) }
         } else {
             Budget { bound: 2, cap: 110, nrandom: 10, time: Duration::from_millis(1200) }
         };
-        cx.k.stats.insert("pairs".into(), pairs.len() as u64);
+        cx.k.stats.insert("pairs".into(), (pairs.len() + extra_pairs.len()) as u64);
         cx.k.stats.insert("preemption_bound".into(), budget.bound as u64);
         // if the machine is slow, the remaining combinations share the remaining time (fewer schedules each)
         let explore_deadline = t_start + if thorough { Duration::from_secs(10 * 60) } else { Duration::from_secs(50) };
-        for (i, p) in pairs.iter().enumerate() {
-            let share = explore_deadline.saturating_duration_since(Instant::now()) / (pairs.len() - i) as u32;
-            let budget = Budget { time: budget.time.min(share * 3), ..budget };
-            explore(&mut cx, &mut rng, p, &budget);
-            cx.k.stat(match (p[0].is_writer(), p[1].is_writer()) {
-                (true, true) => "pairs_writer_writer",
-                (false, false) => "pairs_reader_reader",
-                _ => "pairs_reader_writer",
-            });
-        }
+        let explore_pairs = |cx: &mut Ctx, rng: &mut Rng, pairs: &[[Op; 2]], deadline: Instant| {
+            for (i, p) in pairs.iter().enumerate() {
+                let share = deadline.saturating_duration_since(Instant::now()) / (pairs.len() - i) as u32;
+                let budget = Budget { time: budget.time.min(share * 3), ..budget };
+                explore(cx, rng, p, &budget);
+                cx.k.stat(match (p[0].is_writer(), p[1].is_writer()) {
+                    (true, true) => "pairs_writer_writer",
+                    (false, false) => "pairs_reader_reader",
+                    _ => "pairs_reader_writer",
+                });
+            }
+        };
+        explore_pairs(&mut cx, &mut rng, &pairs, explore_deadline);
         // triples (thorough tier)
         if thorough {
             let ntriples = 40;
@@ -1353,6 +1420,12 @@ mod imp {
                 cx.k.stat("triples");
             }
         }
+        // the pairs with the operations of EXTRA (quick: about 2500 schedules, a few seconds)
+        let t_extra = Instant::now();
+        let runs_before = cx.runs;
+        explore_pairs(&mut cx, &mut rng_extra, &extra_pairs, t_extra + if thorough { Duration::from_secs(150) } else { Duration::from_secs(10) });
+        cx.k.stats.insert("scheduled_runs_targeted_and_extra_pairs".into(), cx.runs - runs_before);
+        cx.k.stats.insert("seconds_for_targeted_and_extra_pairs".into(), t_extra.elapsed().as_secs());
         cx.k.stats.insert("scheduled_runs".into(), cx.runs);
         cx.k.stats.insert("seconds_until_exploration_done".into(), t_start.elapsed().as_secs());
 
@@ -1360,7 +1433,7 @@ mod imp {
         let mut dl_pairs: Vec<usize> = cx.findings.iter().filter(|f| f.prop == "C15").filter_map(|f| f.pair_index).collect();
         dl_pairs.sort();
         dl_pairs.dedup();
-        let max_children = if thorough { 441 } else { 16 };
+        let max_children = if thorough { PAIRED.len() * PAIRED.len() } else { 16 };
         if dl_pairs.len() > max_children {
             // keep a seeded sample within the time limit
             while dl_pairs.len() > max_children {
@@ -1374,7 +1447,10 @@ mod imp {
 
         // report
         let mut summary = String::new();
-        let findings = std::mem::take(&mut cx.findings);
+        let mut findings = std::mem::take(&mut cx.findings);
+        // the sink keeps a limited number of failure lines: the findings of the targeted pairs, which are explored last, are
+        // reported first so that they are never the ones that are cut off (stable: the order is otherwise unchanged)
+        findings.sort_by_key(|f| !EXTRA.iter().any(|o| f.sig.contains(o.name())));
         for f in &findings {
             let mut msg = format!("[{}][sig={}] {}", f.prop, f.sig, f.msg);
             if f.prop == "C15" {
